@@ -43,6 +43,11 @@ func Parse(text string) []Rule {
 		if p == "" || p[0] == '#' {
 			continue
 		}
+		if strings.Contains(p, "[") && !strings.Contains(p, "]") {
+			// not a pattern (a bracket that is never closed): Pack ignores the line and applies the rest;
+			// the bundle builder refuses the file loudly
+			continue
+		}
 		r := Rule{Text: p}
 		if p[0] == '!' {
 			r.Negated = true
